@@ -33,15 +33,27 @@ def _collect(pid: str) -> List[dict]:
 
 def apply_edits(sources: Dict[str, str], edits) -> Dict[str, str] | None:
     src = dict(sources)
-    for path, old, new in edits:
+    for ed in edits:
+        path, old, new = ed[:3]
+        occ = ed[3] if len(ed) > 3 else None
         if path not in src:
             return None
         if old == "" and new:
             src[path] = src[path] + new
             continue
-        if src[path].count(old) != 1:
-            return None
-        src[path] = src[path].replace(old, new)
+        text = src[path]
+        n = text.count(old)
+        if occ is None:
+            if n != 1:
+                return None
+            src[path] = text.replace(old, new)
+        else:
+            if n <= occ:
+                return None
+            pos = -1
+            for _ in range(occ + 1):
+                pos = text.index(old, pos + 1)
+            src[path] = text[:pos] + new + text[pos + len(old):]
     return src
 
 
